@@ -48,31 +48,30 @@ Qed.
 
 Lemma qinv_settle c s : qinv c s -> qinv c (settle c s).
 Proof.
-  destruct s as [p cr ab fi n pc cl k d]. unfold qinv, settle, call_cb; cbn.
+  destruct s as [p cr ab fi n pc cl k d]. destruct c as [eg hc ca].
+  unfold qinv. cbn [q_cb_calls q_cleaned q_has_cb q_finished q_due q_prod q_aborted q_cancel_req].
   intros (H1 & H2 & H3 & H4 & H5 & H6).
-  destruct c as [eg hc ca]; cbn in *.
-  destruct p, cr, pc, n, d, cl, hc, fi, ab; cbn in *;
+  destruct p, cr, pc, n, d, cl, hc, fi, ab;
     try (exfalso; (destruct H2 as (? & ? & ?); [reflexivity|]); congruence);
     try (exfalso; specialize (H4 eq_refl); congruence);
     try (exfalso; specialize (H5 eq_refl); congruence);
     try (exfalso; specialize (H6 eq_refl eq_refl); congruence);
     try (exfalso; destruct (H3 eq_refl eq_refl); congruence);
-    subst; repeat split; intros; try discriminate; try congruence; auto.
+    cbn in *; subst; repeat split; intros; try discriminate; try congruence; auto.
 Qed.
 
 Lemma qinv_abort c s : qinv c s -> qinv c (fst (do_qabort c s)).
 Proof.
   intros H. destruct (q_aborted s) eqn:Ea.
   { unfold do_qabort. rewrite Ea. exact H. }
-  destruct s as [p cr ab fi n pc cl k d]. cbn in Ea. subst ab.
-  unfold qinv, do_qabort, call_cb, running in *; cbn in *.
+  destruct s as [p cr ab fi n pc cl k d]. cbn in Ea. subst ab. destruct c as [eg hc ca].
+  unfold qinv in H. cbn [q_cb_calls q_cleaned q_has_cb q_finished q_due q_prod q_aborted q_cancel_req] in H.
   destruct H as (H1 & H2 & H3 & H4 & H5 & H6).
-  destruct c as [eg hc ca]; cbn in *.
-  destruct p, cr, n, d, cl, hc, fi; cbn in *;
+  destruct p, cr, n, d, cl, hc, fi;
     try (exfalso; (destruct H2 as (? & ? & ?); [reflexivity|]); congruence);
     try (exfalso; specialize (H4 eq_refl); congruence);
     try (exfalso; specialize (H5 eq_refl); congruence);
-    subst; repeat split; intros; try discriminate; try congruence; auto.
+    unfold qinv; cbn in *; subst; repeat split; intros; try discriminate; try congruence; auto.
 Qed.
 
 Lemma qinv_step c s e : qinv c s -> qinv c (fst (qstep c s e)).
@@ -80,13 +79,12 @@ Proof.
   intros H. unfold qstep. destruct (applicable s e) eqn:A; cbn; [|exact H].
   destruct e; cbn.
   - (* QStart *) destruct s as [p cr ab fi n pc cl k d]. unfold qinv in *; cbn in *.
-    destruct H as (H1 & H2 & H3 & H4 & H5 & H6).
-    destruct p; cbn; try (repeat split; auto; fail).
-    destruct ab eqn:Eab; cbn; [repeat split; auto|].
-    repeat split; intros; auto; try discriminate; try congruence.
-    + destruct (H2 H) as (? & ? & ?). discriminate.
-    + destruct (H2 H) as (? & ? & ?). auto.
-    + destruct (H2 H) as (? & ? & ?). discriminate.
+    pose proof H as K. destruct H as (H1 & H2 & H3 & H4 & H5 & H6).
+    destruct p; cbn; try exact K.
+    destruct ab eqn:Eab; cbn; [exact K|].
+    assert (Hf : fi = false).
+    { destruct fi; auto. destruct (H2 eq_refl) as (? & ? & ?). discriminate. }
+    subst fi. repeat split; intros; auto; try discriminate; try congruence.
   - (* QPushFut *) destruct s as [p cr ab fi n pc cl k d]. unfold qinv in *; cbn in *. exact H.
   - exact H.
   - destruct s as [p cr ab fi n pc cl k d]. unfold qinv in *; cbn in *. exact H.
@@ -144,12 +142,22 @@ Qed.
 
 (* model-level quiescence: after an effective abort and one settling of the loop the producer task is
    finished, no item future is pending and no cleanup continuation is left *)
-Lemma abort_then_settle_quiescent c s :
+Lemma abort_then_settle_quiescent_gen c s :
+  (q_finished s = true -> q_prod s = PDone) ->
   q_aborted s = false -> quiescent (settle c (fst (do_qabort c s))) = true.
 Proof.
-  destruct s as [p cr ab fi n pc cl k d]. unfold do_qabort, settle, call_cb, quiescent, running; cbn.
-  intros ->. destruct c as [eg hc ca]; cbn.
-  destruct fi, p, n, cl, d, cr, pc; cbn; reflexivity.
+  destruct s as [p cr ab fi n pc cl k d]. cbn. intros Hf ->. destruct c as [eg hc ca].
+  destruct fi; [rewrite (Hf eq_refl)|]; destruct p, n, cl, d, cr, pc, hc; reflexivity.
+Qed.
+
+(* on every trace: the first effective abort followed by one settling of the loop leaves nothing of the
+   queue running *)
+Lemma abort_then_settle_quiescent c es :
+  let s := qrun c (qinit c) es in
+  q_aborted s = false -> quiescent (settle c (fst (do_qabort c s))) = true.
+Proof.
+  cbn. intros Ha. apply abort_then_settle_quiescent_gen; auto.
+  destruct (qinv_run c es _ (qinv_init c)) as (_ & H2 & _). intros Hf. apply (H2 Hf).
 Qed.
 
 (* ---------------------------------------------------------------- work-finished hook *)
@@ -192,8 +200,9 @@ Proof.
   induction n; intros [b w f fb]; cbn; intros Hb Hw; subst.
   - assert (w = 0%nat) by lia. subst. repeat split; lia.
   - destruct w; cbn.
-    + destruct (IHn (mkH 0 0 f fb)) as (A & B & C); cbn; auto; try lia. cbn in *. repeat split; try lia; auto.
-    + destruct (IHn (mkH 0 w (S f) fb)) as (A & B & C); cbn; auto; try lia. cbn in *. repeat split; try lia; auto.
+    + destruct (IHn (mkH 0 0 f fb)) as (A & B & C); cbn; auto; try lia.
+    + destruct (IHn (mkH 0 w (S f) fb)) as (A & B & C); cbn; auto; try lia.
+      cbn in *. repeat split; auto; lia.
 Qed.
 
 (* with exactly one call of run_async_work_finished_hook: the hook fires at most once on every
@@ -227,7 +236,7 @@ Lemma aclosing_once es : (a_close_calls (arun ainit es) <= 1)%nat.
 Proof. apply (aclose_at_most_once es ainit). cbn. lia. Qed.
 
 Lemma arun_closed es : forall k, arun (mkA GClosed k) es = mkA GClosed k.
-Proof. induction es as [|e es IH]; intros k; cbn; auto. destruct e; cbn; apply IH. Qed.
+Proof. induction es as [|e es IH]; intros k; cbn; auto. Qed.
 
 (* once the body of the mapped generator has been entered, ending it by any means (source exhausted,
    source or callback raising, aclose by the consumer) closes the source exactly once *)
